@@ -47,6 +47,9 @@ class LoopModel:
     pre: list
     post: list
     frame_pre: Frame
+    retained: Optional[str] = None       # the list that receives the retained indices
+    removed: Optional[str] = None        # the list that receives the removed-table rows (threshold RDP only)
+    index_name: Optional[str] = None
 
     @property
     def L(self) -> Rat:
@@ -135,8 +138,41 @@ def build(rc: RuleCtx, qual: str, bind: Optional[Dict[str, Any]] = None) -> Loop
             if not isinstance(v, Vec):
                 raise AnalysisError(f"{qual}: a non-tuple value is pushed on the work stack")
             pushes.append(Push(e.guard, v.items, e.node, k))
-    index = out.env.get("index")
-    return LoopModel(qual, fi, loop, ev, env, out.env, left, right, out.events, pushes, index, stack, out, pre, post, fr)
+    # roles are discovered from what the code does, never from variable names
+    for e in out.events:
+        if e.kind == "call" and isinstance(e.node, ast.Call) and isinstance(e.node.func, ast.Name) and len(e.args) == 3:
+            ev.shape_table["slot:" + e.node.func.id] = 0       # a distance slot: one value per row of its first argument
+    index_name, index = _find_index(out.env, env)
+    retained = removed = None
+    for e in out.events:
+        if e.kind == "append" and e.target != stack:
+            v = e.args[0]
+            if isinstance(v, Vec) and len(v.items) == 2 and removed is None:
+                removed = e.target
+            elif not isinstance(v, Vec) and retained is None:
+                retained = e.target
+    return LoopModel(qual, fi, loop, ev, env, out.env, left, right, out.events, pushes, index, stack, out, pre, post, fr,
+                     retained=retained, removed=removed, index_name=index_name)
+
+
+def _index_like(v: Rat) -> bool:
+    rest, _c = split_const(v)
+    a = single_atom(rest)
+    return a is not None and a.kind == "fn" and a.name in ("argmax", "argmin", "int")
+
+
+def _find_index(env_post, env_pre):
+    """The split index: the variable assigned in the body whose value is (a constant plus) an argmax / argmin /
+    int(...) in at least one case; ties are broken in favour of the one with most such cases."""
+    best = (None, None, 0)
+    for name, v in env_post.items():
+        if name in env_pre and vkey(env_pre[name]) == vkey(v):
+            continue
+        n = sum(1 for _g, x in cases_of(v) if isinstance(x, Rat) and _index_like(x))
+        others = sum(1 for _g, x in cases_of(v) if isinstance(x, Rat) and not _index_like(x))
+        if n and not others and n > best[2]:
+            best = (name, v, n)
+    return best[0], best[1]
 
 
 # --------------------------------------------------------------------------
